@@ -5,11 +5,12 @@ configuration over the live object, and merging never removes — C12). The remo
 evaluated on the implementation by the C03 judges of the `upd` domain.
 -/
 import SMD.Proofs.UpdaterShape
+import SMD.Proofs.FirstApply
 namespace SMD.C03
 
 /-- without a previous record of the applier, prune is the identity -/
 theorem prune_without_previous_record (u : Updater) (sc : Schema) (merged : TV) (m : Managed) (mgr : String) :
-    prune u sc merged m mgr none = .ok merged := sorry
+    prune u sc merged m mgr none = .ok merged := prune_none u sc merged m mgr
 
 /-- a manager's first apply returns the plain merge of its configuration over the live object (or
 nothing when that equals the live object): nothing is pruned -/
@@ -18,7 +19,9 @@ theorem first_apply_is_merge (u : Updater) (sc : Schema) (live cfg : TV) (ver : 
     (hrec : reconcileManaged u sc live m = .ok m0) (hfirst : mfGet m0 mgr = none) :
     apply u sc live cfg ver m mgr force = .ok (obj, mf) →
       ∃ merged, mergeTV sc live cfg = .ok merged ∧
-        (obj = some merged ∨ (obj = none ∧ Value.equals live.value merged.value = true)) := sorry
+        (obj = some merged ∨ (obj = none ∧ Value.equals live.value merged.value = true)) :=
+  apply_of_prune_id u sc live cfg ver m m0 mgr force obj mf hrec
+    (fun merged ms => by rw [hfirst]; exact prune_none u sc merged ms mgr)
 
 /-- the same holds when the previous record is empty -/
 theorem apply_with_empty_record_is_merge (u : Updater) (sc : Schema) (live cfg : TV) (ver : String) (m m0 : Managed)
@@ -26,6 +29,8 @@ theorem apply_with_empty_record_is_merge (u : Updater) (sc : Schema) (live cfg :
     (hrec : reconcileManaged u sc live m = .ok m0) (hlast : mfGet m0 mgr = some last) (hempty : last.set.isEmpty = true) :
     apply u sc live cfg ver m mgr force = .ok (obj, mf) →
       ∃ merged, mergeTV sc live cfg = .ok merged ∧
-        (obj = some merged ∨ (obj = none ∧ Value.equals live.value merged.value = true)) := sorry
+        (obj = some merged ∨ (obj = none ∧ Value.equals live.value merged.value = true)) :=
+  apply_of_prune_id u sc live cfg ver m m0 mgr force obj mf hrec
+    (fun merged ms => by rw [hlast]; exact prune_empty u sc merged ms mgr last hempty)
 
 end SMD.C03
